@@ -349,6 +349,15 @@ def shard_pairs_light(acc, shard, nshards, pairs_of_lengths):
                 i += 1
 
 
+def pair_light_cases():
+    return st.tuples(gen.perms(5, 7), gen.perms(8, 12)).map(lambda pq: [list(pq[0]), list(pq[1])])
+
+
+def shard_pairs_random(acc, shard, nshards, n):
+    """independent pairs at lengths no sweep reaches (pattern 5-7, longer one 8-12)"""
+    engine.hyp_run(acc, "pair_light", check_pair_light, pair_light_cases(), n, shard)
+
+
 def shard_triples_classical(acc, shard, nshards, lo, hi):
     """every 3-subset of the classical patterns of length lo..hi (4060 for 3..4)"""
     pats = [list(p) for n in range(lo, hi + 1) for p in ref.perms(n)]
@@ -391,6 +400,7 @@ FUZZ = {"basis": ("basis", basis_cases), "from_string": ("from_string", string_c
 def run(acc, tier):
     engine.pmap(acc, shard_identity, extra=((50, 1500, 5000) if tier == "quick" else (50, 1500, 5000, 45000),))
     engine.pmap(acc, shard_pairs_light, extra=(((2, 5), (3, 5), (4, 5), (3, 6), (4, 6), (5, 6), (6, 7)) if tier == "quick" else ((3, 5), (4, 5), (3, 6), (4, 6), (5, 6), (3, 7), (4, 7), (5, 7), (6, 7), (7, 8)),))
+    engine.pmap(acc, shard_pairs_random, extra=((6000,) if tier == "quick" else (100000,)))
     if tier == "quick":
         engine.pmap(acc, shard_small_classical, extra=(3, 2))
         engine.pmap(acc, shard_small_mesh, extra=(3,))
